@@ -73,6 +73,8 @@ pub fn evaluate_exponent(
 ) -> Result<Value, TracedInterpreterError> {
     let number: f64 = left_side.try_into()?;
     let power: f64 = right_side.try_into()?;
+    #[cfg(abasic_verif)]
+    crate::verif::log_pow(number, power, number.powf(power));
 
     Ok(number.powf(power).into())
 }
